@@ -23,6 +23,7 @@ structure Conf where
   map : Option C13.Env := none
   ebmap : Option C13.Eb.Env := none
   edmap : Option C13.Ed.Env := none
+  ep2map : Option C13.Ext.Env := none
 
 def parseCfg (toks : List String) : Conf :=
   toks.foldl (fun c t =>
@@ -48,6 +49,8 @@ def dispatch (c : Conf) (op : String) (args : List String) (got : String) : Opti
     | some e => C13.Eb.handle e op args
     | none => none) <|> (match c.edmap with
     | some e => C13.Ed.handle e op args got
+    | none => none) <|> (match c.ep2map with
+    | some e => C13.Ext.handle e op args got
     | none => none)
 
 def processLine (c : Conf) (line : String) : String :=
@@ -107,6 +110,18 @@ partial def loop (h : IO.FS.Stream) (out : IO.FS.Stream) (c : Conf) : IO Unit :=
       | none =>
         out.putStrLn (if got == "err" then "ok ep_map_param-rejected" else "FAIL S model=[] spec=[parsable ep_map_param] got=[" ++ got ++ "]")
         loop h out { c with ep := none, map := none }
+    | _ => out.putStrLn "skip"; loop h out c
+  else if line.startsWith "ep2_map_param " then
+    match line.splitOn " => " with
+    | [_, got] =>
+      match C13.Ext.parseEnv got with
+      | some e =>
+        let bad := C13.Ext.checkParam e
+        out.putStrLn (if bad.isEmpty then "ok ep2_map_param" else "FAIL S model=[] spec=[" ++ String.intercalate ";" bad ++ "] got=[" ++ got ++ "]")
+        loop h out { c with ep2map := some e }
+      | none =>
+        out.putStrLn (if got == "err" then "ok ep2_map_param-rejected" else "FAIL S model=[] spec=[parsable ep2_map_param] got=[" ++ got ++ "]")
+        loop h out { c with ep2map := none }
     | _ => out.putStrLn "skip"; loop h out c
   else if line.startsWith "ed_map_param " then
     match line.splitOn " => " with
